@@ -158,6 +158,55 @@ func callPositions(rel, fnName, callee string) []int {
 	return out
 }
 
+// ifAssign reports whether fnName contains `if <cond> { ... <assign> ... }` with the given
+// (whitespace-insensitive) condition and assignment texts.
+func ifAssign(rel, fnName, cond, assign string) bool {
+	f := load(rel)
+	fd := f.fn(fnName)
+	if fd == nil || fd.Body == nil {
+		lost = append(lost, rel+":"+fnName+" (function not found)")
+		return false
+	}
+	found := false
+	ast.Inspect(fd.Body, func(n ast.Node) bool {
+		is, ok := n.(*ast.IfStmt)
+		if !ok || nows(f.src(is.Cond)) != nows(cond) {
+			return true
+		}
+		for _, st := range is.Body.List {
+			if nows(f.src(st)) == nows(assign) {
+				found = true
+			}
+		}
+		return true
+	})
+	if !found {
+		lost = append(lost, rel+":"+fnName+": if "+cond+" { "+assign+" }")
+	}
+	return found
+}
+
+// hasCond reports whether fnName contains an if statement with exactly this condition.
+func hasCond(rel, fnName, cond string) bool {
+	f := load(rel)
+	fd := f.fn(fnName)
+	if fd == nil || fd.Body == nil {
+		lost = append(lost, rel+":"+fnName+" (function not found)")
+		return false
+	}
+	found := false
+	ast.Inspect(fd.Body, func(n ast.Node) bool {
+		if is, ok := n.(*ast.IfStmt); ok && nows(f.src(is.Cond)) == nows(cond) {
+			found = true
+		}
+		return true
+	})
+	if !found {
+		lost = append(lost, rel+":"+fnName+": if "+cond)
+	}
+	return found
+}
+
 // constInt returns the value of an integer constant declared as a basic literal or a
 // simple sum/product of literals and other constants of the same file.
 func constInt(rel, name string) (int64, bool) {
@@ -287,7 +336,7 @@ func main() {
 	os.MkdirAll(gen, 0755)
 
 	var out []*leanFile
-	out = append(out, genEnvelope(), genLog(), genRetention(), genCompact())
+	out = append(out, genEnvelope(), genLog(), genRetention(), genCompact(), genPartition())
 
 	keep := map[string]bool{}
 	for _, l := range out {
